@@ -53,26 +53,23 @@ theorem accepted_request_is_valid (i : Input) (ar : AR) (ps : List Param) (h : a
     rw [fr.form]
     exact (gt.idt (pHas_iff.2 hid)).1
 
-/-- "…is one of the client's registered combinations (as a set)": when no registered combination lists a
-    name twice in different case, the accepted response_type equals one of them as a set. -/
+/-- "…is one of the client's registered combinations (as a set)": the accepted response_type equals one of
+    the registered combinations as a set (names compared without regard to case).  Before repair f1e5ad8
+    this needed the hypothesis that no registered combination lists a name twice in different case. -/
 theorem response_type_is_registered_set (i : Input) (ar : AR) (ps : List Param) (h : authorize i = .success ar ps)
-    (c : Client) (hc : i.clients (i.form.get "client_id") = some c)
-    (hnd : ∀ t ∈ c.getResponseTypes, ((words t).map i.lib.lower).Nodup) :
+    (c : Client) (hc : i.clients (i.form.get "client_id") = some c) :
     responseTypeRegistered i.lib.lower c (ar.form.get "response_type") := by
   obtain ⟨_, c', hc', _, hrts, hne, ⟨t, ht, hm⟩, _⟩ := accepted_request_is_valid i ar ps h
   rw [hc] at hc'
   cases hc'
   rw [hrts] at hne hm
-  exact ⟨hne, t, ht, argsMatches_sameSet (hnd t ht) hm⟩
+  exact ⟨hne, t, ht, argsMatches_sameSet hm⟩
 
-/-- The hypothesis of `response_type_is_registered_set` is needed: `Arguments.Matches` counts the distinct
-    registered names by exact spelling, so a registration `"code Code"` matches the request `"code token"`.
-    (Reported as a finding; the monitor flags it as `C13:response_type_registered`.) -/
-theorem degenerate_registration_counterexample :
-    ∃ lower : String → String, lower "Code" = "code" ∧
-      argsMatches lower ["code", "token"] ["code", "Code"] = true ∧
-      ¬ sameSetCI lower ["code", "token"] ["code", "Code"] :=
-  ⟨fun s => if s = "Code" then "code" else s, by decide, by decide, by decide⟩
+/-- REGRESSION (f1e5ad8): `Arguments.Matches` used to count the distinct registered names by exact spelling,
+    so a registration `"code Code"` matched the request `"code token"`; it no longer does. -/
+theorem degenerate_registration_refused :
+    argsMatches (fun s => if s = "Code" then "code" else s) ["code", "token"] ["code", "Code"] = false := by
+  decide
 
 /-- An OpenID Connect request without `redirect_uri` is never accepted — not even by
     `NewAuthorizeRequest` alone, and whatever the registration. -/
